@@ -45,7 +45,7 @@ TRUSTED = ['ideal authenticated encryption (ciphertext integrity) for every nego
 ASSUMPTIONS = ['fewer than 2^32 packets per key epoch', 'the attacker does not hold the session keys']
 
 EDITS = ['flip-length', 'flip-body', 'flip-padding', 'flip-tag', 'truncate', 'drop', 'duplicate', 'swap',
-         'splice-old', 'splice-reverse']
+         'splice-old', 'splice-reverse', 'short-length-cut', 'short-length-full']
 INTEGRITY_ERRORS = ('MACError', 'ProtocolError', 'CompressionError', 'ConnectionLost', 'DisconnectError')
 
 
@@ -65,8 +65,9 @@ def length_mode(enc: str, mac: str) -> int:
 class Editor:
     """hub.filter: applies one edit to the `target`-th packet written in `direction` (counting from 0)."""
 
-    def __init__(self, direction: str, target: int, edit: str, rng: random.Random, taglen: int):
+    def __init__(self, direction: str, target: int, edit: str, rng: random.Random, taglen: int, mode: int = 2):
         self.direction, self.target, self.edit, self.rng, self.taglen = direction, target, edit, rng, taglen
+        self.mode = mode
         self.count = {pair.C2S: 0, pair.S2C: 0}
         self.history: Dict[str, List[bytes]] = {pair.C2S: [], pair.S2C: []}
         self.held: Optional[bytes] = None
@@ -103,6 +104,26 @@ class Editor:
             out = bytearray(data)
             out[pos] ^= bit
             self.applied = info
+            return bytes(out)
+        if e.startswith('short-length'):
+            # a length no honest sender produces (below one cipher block): the receiver's arithmetic for "how much
+            # more do I need" goes negative; with `-cut` the MAC is withheld, one filler byte added, the rest stalled
+            new_len = self.rng.choice([0, 1, 4, 5, 7, 11, 11, 11])
+            out = bytearray(data)
+            if self.mode == 0:
+                out[0:4] = new_len.to_bytes(4, 'big')
+            elif self.mode == 1 and n >= 4 + self.taglen:
+                old_len = n - 4 - self.taglen
+                mask = (old_len ^ new_len).to_bytes(4, 'big')
+                for i in range(4):
+                    out[i] ^= mask[i]
+            else:
+                out[self.rng.randrange(0, 4)] ^= 1 << self.rng.randrange(8)
+            info.update(new_len=new_len, mode=self.mode)
+            self.applied = info
+            if e == 'short-length-cut':
+                self.cut = True
+                return bytes(out[:max(4, n - self.taglen)]) + bytes([self.rng.randrange(256)])
             return bytes(out)
         if e == 'truncate':
             keep = self.rng.randrange(0, n)
@@ -200,7 +221,7 @@ async def tamper_case(combo: Tuple[str, str, str, str], direction: str, edit: st
         # packets written so far in the tampered direction; the edit hits a packet a few writes later,
         # in the middle of a burst of channel data
         base = len(hub.writes[direction])
-        editor = Editor(direction, base + target_after, edit, rng, taglen)
+        editor = Editor(direction, base + target_after, edit, rng, taglen, length_mode(enc, mac))
         editor.count = {d: len(hub.writes[d]) for d in (pair.C2S, pair.S2C)}
         editor.history = {d: list(hub.writes[d]) for d in (pair.C2S, pair.S2C)}
         hub.filter = editor
@@ -245,6 +266,7 @@ async def tamper_case(combo: Tuple[str, str, str, str], direction: str, edit: st
         nsent_before = window_start_pkt - 1          # writes[0] is the version line
         if 0 <= nsent_before < len(all_sent):
             out['sender_seq0'] = all_sent[nsent_before][0]
+            out['sender_payloads'] = [p[:12] for _q, p in all_sent[nsent_before:]]
         lost = RecServer.lost if direction == pair.C2S else RecClient.lost
         out['receiver_closed'] = bool(lost) or recv_conn.is_closed()
         out['receiver_exc'] = type(lost[0]).__name__ if lost and lost[0] is not None else \
@@ -263,7 +285,7 @@ def gen_cases(ctx: Ctx, rng: random.Random, n_combos: Optional[int]) -> List[Tup
     combos = ts.combos(rng, n_combos)
     cases = []
     for i, combo in enumerate(combos):
-        edits = EDITS if ctx.tier == 'thorough' else rng.sample(EDITS, 4)
+        edits = EDITS if ctx.tier == 'thorough' else rng.sample(EDITS[:10], 3) + [rng.choice(EDITS[10:])]
         for e in edits:
             d = pair.C2S if rng.random() < 0.5 else pair.S2C
             cases.append((combo, d, e, rng.randrange(1, 6), rng.randrange(1 << 30)))
@@ -349,6 +371,18 @@ def oracle(ctx: Ctx) -> OracleResult:
         if o['receiver_closed'] and o['receiver_exc'] not in INTEGRITY_ERRORS:
             res.failures.append(Failure(f'tamper-not-reported-as-error:{o["receiver_exc"]}',
                                         f'{o["combo"]} {o["edit"]}: receiver closed with {o["receiver_exc"]}', key))
+        # (3) every packet the receiver dispatched is, in order, one the sender sealed: nothing altered, invented,
+        # repeated or out of order is acted upon (whatever the upper layers would have made of it)
+        sp = o.get('sender_payloads')
+        if sp is not None:
+            got = [p for _q, p in o['recv_log']]
+            bad = next((i for i, p in enumerate(got) if i >= len(sp) or p != sp[i]), None)
+            if bad is not None:
+                res.failures.append(Failure(
+                    'packet-not-sealed-by-the-sender-was-dispatched',
+                    f'{o["combo"]} {o["edit"]} {o["applied"]}: dispatched packet #{bad} of the window starts '
+                    f'{got[bad].hex()} but the sender\'s packet #{bad} starts '
+                    f'{sp[bad].hex() if bad < len(sp) else "<nothing: sender sent fewer>"}', key))
     res.nontrivial = len(set((tuple(o['combo']), o['edit'], o['direction']) for o in outs if o.get('applied')))
     res.histogram = dict(hist)
     res.samples = [{'combo': o['combo'], 'edit': o.get('applied'), 'receiver_exc': o.get('receiver_exc')}
@@ -365,4 +399,9 @@ def replay(ctx: Ctx, rep: Dict[str, Any]) -> List[Failure]:
         fails.append(Failure('altered-bytes-reached-application', str(o['applied']), r))
     if o.get('applied') and o['receiver_closed'] and o['receiver_exc'] not in INTEGRITY_ERRORS:
         fails.append(Failure('tamper-not-reported-as-error', str(o['receiver_exc']), r))
+    sp = o.get('sender_payloads')
+    if o.get('applied') and sp is not None:
+        got = [p for _q, p in o['recv_log']]
+        if any(i >= len(sp) or p != sp[i] for i, p in enumerate(got)):
+            fails.append(Failure('packet-not-sealed-by-the-sender-was-dispatched', str(o['applied']), r))
     return fails
